@@ -153,13 +153,13 @@ Proof. reflexivity. Qed.
 Lemma json_encode_map id m :
   json_encode nn (VMap id m) =
   if is_nil_coll nn id m then Ok s_null else
-  (items <- enc_members m ;; Ok ([123] ++ join [44] (map json_member (sort_kv items)) ++ [125])).
+  (items <- enc_members m ;; Ok ([123] ++ join [44] (map json_member (json_sort_kv items)) ++ [125])).
 Proof. reflexivity. Qed.
 
-Lemma jv_of_list id l : jv_of_value (VList id l) = option_map JArr (jv_items l).
+Lemma jv_of_list id l : jv_of_value (VList id l) = option_map JvArr (jv_items l).
 Proof. reflexivity. Qed.
 
-Lemma jv_of_map id m : jv_of_value (VMap id m) = option_map JObj (jv_members_of m).
+Lemma jv_of_map id m : jv_of_value (VMap id m) = option_map JvObj (jv_members_of m).
 Proof. reflexivity. Qed.
 
 (* ---- the values the theorem is about: strings and keys are valid UTF-8, floats are
@@ -349,13 +349,13 @@ Proof.
 Qed.
 
 (* ---- sorted keys: the encoder's sort leaves the members where they are ---- *)
-Lemma sort_kv_sorted {A} (l : list (bstr * A)) : keys_sorted (map fst l) -> sort_kv l = l.
+Lemma sort_kv_sorted {A} (l : list (bstr * A)) : keys_sorted (map fst l) -> json_sort_kv l = l.
 Proof.
-  induction l as [|[k x] r IH]; [reflexivity|]. intros Hs. unfold sort_kv in *. cbn [fold_right fst snd].
+  induction l as [|[k x] r IH]; [reflexivity|]. intros Hs. unfold json_sort_kv in *. cbn [fold_right fst snd].
   destruct r as [|[k2 x2] r2].
   - reflexivity.
   - cbn [map fst keys_sorted] in Hs. destruct Hs as [Hlt Hs]. rewrite IH by exact Hs.
-    cbn [insert_kv]. unfold bstr_leb. rewrite (bstr_ltb_asym k k2 Hlt). reflexivity.
+    cbn [json_insert_kv]. unfold bstr_leb. rewrite (bstr_ltb_asym k k2 Hlt). reflexivity.
 Qed.
 
 Lemma enc_members_keys m items : enc_members m = Ok items -> map fst items = map fst m.
@@ -386,13 +386,13 @@ Proof. intros -> Hws Hb Hp Hd. cbn [app] in *. rewrite Hb, Hp, Hd. reflexivity. 
 Lemma is_prefix_app_self p X : is_prefix p (p ++ X) = true.
 Proof. apply is_prefix_app. Qed.
 
-Lemma roundtrip_null pv g rest : jv_body pv g (s_null ++ rest) = Some (JNull, rest).
+Lemma roundtrip_null pv g rest : jv_body pv g (s_null ++ rest) = Some (JvNull, rest).
 Proof. unfold jv_body, s_null. cbn [app skip_ws is_ws]. cbn. reflexivity. Qed.
 
-Lemma roundtrip_true pv g rest : jv_body pv g (s_true ++ rest) = Some (JBool true, rest).
+Lemma roundtrip_true pv g rest : jv_body pv g (s_true ++ rest) = Some (JvBool true, rest).
 Proof. unfold jv_body, s_true. cbn. reflexivity. Qed.
 
-Lemma roundtrip_false pv g rest : jv_body pv g (s_false ++ rest) = Some (JBool false, rest).
+Lemma roundtrip_false pv g rest : jv_body pv g (s_false ++ rest) = Some (JvBool false, rest).
 Proof. unfold jv_body, s_false. cbn. reflexivity. Qed.
 
 Lemma sum_ge_len {A} (d : A -> nat) l : (forall x, 1 <= d x)%nat ->
@@ -405,11 +405,11 @@ Proof. induction l as [|y r IH]; [intros []|]. cbn [fold_right]. intros [->|H]; 
 Theorem json_roundtrip_at : forall v, roundtrips v.
 Proof.
   apply value_ind2; unfold roundtrips.
-  - intros _ s H. injection H as <-. exists JNull. split; [reflexivity|]. intros [|f] rest Hf Hs; [cbn in Hf; lia|].
+  - intros _ s H. injection H as <-. exists JvNull. split; [reflexivity|]. intros [|f] rest Hf Hs; [cbn in Hf; lia|].
     rewrite jv_parse_S. apply roundtrip_null.
-  - intros _ s H. injection H as <-. exists JNull. split; [reflexivity|]. intros [|f] rest Hf Hs; [cbn in Hf; lia|].
+  - intros _ s H. injection H as <-. exists JvNull. split; [reflexivity|]. intros [|f] rest Hf Hs; [cbn in Hf; lia|].
     rewrite jv_parse_S. apply roundtrip_null.
-  - intros x _ s H. exists (JBool x). split; [reflexivity|]. intros [|f] rest Hf Hs; [cbn in Hf; lia|].
+  - intros x _ s H. exists (JvBool x). split; [reflexivity|]. intros [|f] rest Hf Hs; [cbn in Hf; lia|].
     rewrite jv_parse_S. destruct x; injection H as <-; [apply roundtrip_true|apply roundtrip_false].
   - intros z _ s H. injection H as <-. exists (num_of_Z z). split; [reflexivity|]. intros [|f] rest Hf Hs; [cbn in Hf; lia|].
     rewrite jv_parse_S. rewrite jv_body_number by apply dec_of_Z_head. apply json_number_int, Hs.
@@ -424,7 +424,7 @@ Proof.
       eapply json_number_float; eauto.
     + destruct (fl_to_string (FFin m e)) as [t|] eqn:E; [|discriminate]. injection H as <-.
       eapply json_number_float; eauto.
-  - intros t Hok s H. cbn [json_ok] in Hok. injection H as <-. exists (JStr t). split; [reflexivity|].
+  - intros t Hok s H. cbn [json_ok] in Hok. injection H as <-. exists (JvStr t). split; [reflexivity|].
     intros [|f] rest Hf Hs; [cbn in Hf; lia|]. rewrite jv_parse_S.
     unfold json_string, jv_body. cbn [app]. rewrite skip_ws_head by reflexivity.
     change (34 =? 110) with false. change (34 =? 116) with false. change (34 =? 102) with false. change (34 =? 34) with true. cbv iota.
@@ -445,7 +445,7 @@ Proof.
         intros f Hf. constructor.
         + split; [eapply json_encode_head; exact Hsx|]. intros rest Hs. apply Hpx; [apply Hf; left; reflexivity|exact Hs].
         + apply Hpr. intros y Hy. apply Hf. right. exact Hy. }
-    exists (JArr js). split; [rewrite jv_of_list, Hjs; reflexivity|].
+    exists (JvArr js). split; [rewrite jv_of_list, Hjs; reflexivity|].
     intros [|f] rest Hf Hs; [cbn in Hf; lia|]. rewrite jv_parse_S. cbn [vsize] in Hf.
     unfold jv_body. cbn [app]. rewrite skip_ws_head by reflexivity.
     change (91 =? 110) with false. change (91 =? 116) with false. change (91 =? 102) with false. change (91 =? 34) with false.
@@ -483,7 +483,7 @@ Proof.
         + split; [reflexivity|]. split; [exact Hvk|]. cbn [fst snd].
           split; [eapply json_encode_head; exact Hsx|]. intros rest Hs. apply Hpx; [apply (Hf (k, x)); left; reflexivity|exact Hs].
         + apply Hpr. intros y Hy. apply Hf. right. exact Hy. }
-    exists (JObj js). split; [rewrite jv_of_map, Hjs; reflexivity|].
+    exists (JvObj js). split; [rewrite jv_of_map, Hjs; reflexivity|].
     intros [|f] rest Hf Hs; [cbn in Hf; lia|]. rewrite jv_parse_S. cbn [vsize] in Hf.
     unfold jv_body. cbn [app]. rewrite skip_ws_head by reflexivity.
     change (123 =? 110) with false. change (123 =? 116) with false. change (123 =? 102) with false. change (123 =? 34) with false.
@@ -537,16 +537,16 @@ Proof.
     { injection H as <-. unfold is_nil_coll in En. destruct m; [cbn; lia|rewrite andb_false_r in En; discriminate]. }
     apply bind_ok in H. destruct H as (items & Hitems & H). injection H as <-.
     cbn [vsize app length]. rewrite !app_length. cbn [length].
-    pose proof (join_length_ge [44] (map json_member (sort_kv items))) as Hj.
+    pose proof (join_length_ge [44] (map json_member (json_sort_kv items))) as Hj.
     assert (fold_right (fun kx acc => (vsize (snd kx) + acc)%nat) 0%nat m <=
-            fold_right (fun s acc => (length s + acc)%nat) 0%nat (map json_member (sort_kv items)))%nat; [|lia].
+            fold_right (fun s acc => (length s + acc)%nat) 0%nat (map json_member (json_sort_kv items)))%nat; [|lia].
     clear Hj.
     (* the sum over the sorted members is the sum over the members *)
-    assert (forall (l : list (bstr * bstr)), fold_right (fun s acc => (length s + acc)%nat) 0%nat (map json_member (sort_kv l)) =
+    assert (forall (l : list (bstr * bstr)), fold_right (fun s acc => (length s + acc)%nat) 0%nat (map json_member (json_sort_kv l)) =
                                               fold_right (fun s acc => (length s + acc)%nat) 0%nat (map json_member l)) as Hsum.
-    { induction l as [|[k x] r IHl]; [reflexivity|]. unfold sort_kv in *. cbn [fold_right map fst snd]. rewrite <- IHl.
-      generalize (fold_right (fun (kx : bstr * bstr) acc => insert_kv (fst kx) (snd kx) acc) [] r). intros acc.
-      induction acc as [|[k' x'] acc IHa]; [reflexivity|]. cbn [insert_kv]. destruct (bstr_leb k k'); cbn [map fold_right]; [reflexivity|].
+    { induction l as [|[k x] r IHl]; [reflexivity|]. unfold json_sort_kv in *. cbn [fold_right map fst snd]. rewrite <- IHl.
+      generalize (fold_right (fun (kx : bstr * bstr) acc => json_insert_kv (fst kx) (snd kx) acc) [] r). intros acc.
+      induction acc as [|[k' x'] acc IHa]; [reflexivity|]. cbn [json_insert_kv]. destruct (bstr_leb k k'); cbn [map fold_right]; [reflexivity|].
       rewrite IHa. lia. }
     rewrite Hsum. clear Hsum En. revert items Hitems. induction m as [|[k x] r IHr]; intros items Hitems.
     + injection Hitems as <-. cbn. lia.
